@@ -1690,6 +1690,13 @@ func (e *executor) executeRowBSIGroupShard(ctx context.Context, index string, c 
 			return frag.notNull()
 		}
 
+		// The same holds for the range of values the current bit depth can
+		// hold, which is what baseValue() clamps the predicate to.
+		if (cond.Op == pql.LT && value > bsig.bitDepthMax()) || (cond.Op == pql.LTE && value >= bsig.bitDepthMax()) ||
+			(cond.Op == pql.GT && value < bsig.bitDepthMin()) || (cond.Op == pql.GTE && value <= bsig.bitDepthMin()) {
+			return frag.notNull()
+		}
+
 		// outOfRange for NEQ should return all not-null.
 		if outOfRange && cond.Op == pql.NEQ {
 			return frag.notNull()
